@@ -49,9 +49,13 @@ pub fn intersect_cl(c: &Circle, l: &Line) -> CircleLineIntersection {
     if d > c.r + EPS {
         CircleLineIntersection::None
     } else if d > c.r - EPS {
-        let ort = Point::new(l.a, l.b);
-        let ort = ort / ort.len();
-        CircleLineIntersection::Touch(ort * c.r)
+        // foot of the perpendicular from the center, on the side of the center where the line is
+        let mut ort = Point::new(l.a, l.b);
+        ort = ort / ort.len();
+        if l.a * c.c.x + l.b * c.c.y + l.c > 0.0 {
+            ort = ort * -1.0;
+        }
+        CircleLineIntersection::Touch(c.c + ort * d)
     } else {
         let mut ort = Point::new(l.a, l.b);
         if ort.len() != 0.0 {
